@@ -5,6 +5,7 @@ import props_profiles as pp
 import props_cache as pc
 import props_state as pst
 import props_io as pio
+import props_area as pa
 
 CHECKS = {
     "C01": ps.check_C01,
@@ -26,4 +27,5 @@ CHECKS = {
     "C17": pw.check_C17,
     "C18": pio.check_C18,
     "C19": pp.check_C19,
+    "C20": pa.check_C20,
 }
